@@ -772,6 +772,57 @@ func ruleArity(p *Prog, r *Result) {
 			r.add(guarded, key, p.InstrPos(ia), fmt.Sprintf("args[%d] is read although a row registers this body with NumArgs = %d", c, k))
 		})
 	}
+	// the aggregate functions index their arguments as blindly as the scalar ones: somewhere between the statement and
+	// the construction of an aggregate functor the number of arguments of the call is compared with the NumArgs its
+	// registry row declares - by the plan that builds the functors, or by the check the plan builder runs on every
+	// statement (either one is enough; a statement-level check that leaves aggregates to the plan and a plan that leaves
+	// them to the statement-level check leave nobody)
+	aggrNumArgs := func(v ssa.Value) bool {
+		found := false
+		var rec func(x ssa.Value, d int)
+		rec = func(x ssa.Value, d int) {
+			if d > 5 || found {
+				return
+			}
+			if o, f, _, ok := loadedField(x); ok && o != nil && f == "NumArgs" && o.Obj().Name() == "AggrFunc" {
+				found = true
+				return
+			}
+			if ph, ok := x.(*ssa.Phi); ok {
+				for _, e := range ph.Edges {
+					rec(e, d+1)
+				}
+			}
+		}
+		rec(v, 0)
+		return found
+	}
+	where := ""
+	for _, fn := range p.Funcs {
+		allInstrs(fn, func(in ssa.Instruction) {
+			bo, ok := in.(*ssa.BinOp)
+			if !ok {
+				return
+			}
+			switch bo.Op {
+			case token.EQL, token.NEQ, token.LSS, token.LEQ, token.GTR, token.GEQ:
+			default:
+				return
+			}
+			isLen := func(v ssa.Value) bool {
+				c, ok := v.(*ssa.Call)
+				if !ok {
+					return false
+				}
+				bi, ok := c.Call.Value.(*ssa.Builtin)
+				return ok && bi.Name() == "len"
+			}
+			if (aggrNumArgs(bo.X) && isLen(bo.Y)) || (aggrNumArgs(bo.Y) && isLen(bo.X)) {
+				where = p.InstrPos(in)
+			}
+		})
+	}
+	r.add(where != "", "aggregate|arity-compared", "", firstNonEmpty(map[bool]string{true: "the argument count of an aggregate call is compared with the declared NumArgs at " + where}[where != ""], "nothing compares the argument count of an aggregate call with the NumArgs its registry row declares: the functors index args[0], args[1] blindly"))
 }
 
 // ---------------- LISTCOVER ----------------
